@@ -486,7 +486,9 @@ ALIAS_T = [(t, a) for t in ("a", "b", "") for a in (0, 1, 2, 3) if not (t == "" 
 
 def c17_decode_for(ver, role, router, warm):
     def dec(tokens, variant):
-        cfg = dict(role=role, ver=5, gate_pub=0, max_qos=2, max_receive=16)
+        # strict = 17: every protocol violation these sequences can contain is an alias violation the monitor
+        # computes itself, so a protocol-error stop it did not ask for is a violation (a valid alias refused)
+        cfg = dict(role=role, ver=5, gate_pub=0, max_qos=2, max_receive=16, strict=17)
         if role == "server":
             cfg["max_topic_alias"] = 2
         else:
@@ -553,6 +555,15 @@ def c15_templates(role):
         [{"c": "gate", "what": "pub", "on": 1}, pub(q=1, id=8), cause("recvmax"), pub(q=1, id=9),
          {"c": "gate", "what": "pub", "on": 0}],
     ]
+    t += [
+        # the application's handler fails for the peer's DISCONNECT: nothing may be written after the peer's packet
+        [{"c": "arm", "o": "err"}, {"c": "in", "p": {"t": "disconnect"}}],
+        # the handler for the peer's DISCONNECT is still running when the application closes the connection
+        [{"c": "gate", "what": "proto", "on": 1}, {"c": "in", "p": {"t": "disconnect"}}, {"c": "close", "k": "close"},
+         {"c": "gate", "what": "proto", "on": 0}, {"c": "complete", "j": 0, "o": "ok"}],
+        [{"c": "gate", "what": "proto", "on": 1}, {"c": "in", "p": {"t": "disconnect"}}, {"c": "close", "k": "reason", "code": 0x8b},
+         {"c": "gate", "what": "proto", "on": 0}, {"c": "complete", "j": 0, "o": "ok"}],
+    ]
     if role == "server":
         t += [
             [{"c": "arm", "o": "disc"}, {"c": "mark", "e": "app_disc"}, {"c": "in", "p": {"t": "pingreq"}}],
@@ -602,7 +613,7 @@ def c15_configs(tier):
 reg(dict(
     name="disc", judge="ProtoJudge", configs=c15_configs, signature=inb_signature,
     level={}, quota=500, quota_thorough=20000,
-    rule="TLC enumerates every sequence of <= 3 close initiators out of 16 (server) / 11 (client): application close / "
+    rule="TLC enumerates every sequence of <= 3 close initiators out of 20 (server) / 15 (client) (incl. a failing and a slow handler for the peer's DISCONNECT with a close() meanwhile): application close / "
          "close_with_reason / close_with_no_reason, protocol handler disconnect / disconnect_with, control service "
          "supplying its own DISCONNECT, handler error, peer DISCONNECT without, with a non-zero and with a zero Session Expiry Interval, and the "
          "protocol violations with dedicated codes (QoS, retain, subscription identifiers, topic alias, packet too "
@@ -630,7 +641,7 @@ def c12_decode_for(kind, maxrecv, size):
         nid = 1
         streaming = 0
         for t in tokens:
-            if streaming > 0 and t in (1, 2, 3, 4, 6, 9, 10, 11, 12):
+            if streaming > 0 and t in (1, 2, 3, 4, 6, 9, 10, 11, 12, 13):
                 # a well-formed peer finishes the payload before the next packet
                 cmds.append({"c": "in", "p": {"t": "payload", "n": streaming}})
                 streaming = 0
@@ -664,6 +675,8 @@ def c12_decode_for(kind, maxrecv, size):
             elif t == 10:   # re-transmission of a publish whose identifier is still in use
                 if nid > 1:
                     cmds.append({"c": "in", "p": {"t": "publish", "q": 1, "id": 1, "topic": "t", "plen": 1, "dup": 1}})
+            elif t == 13:   # a publish whose bytes are mostly topic: 40 byte topic, 1 byte payload
+                cmds.append({"c": "in", "p": {"t": "publish", "q": 1, "id": nid, "topic": "t" * 40, "plen": 1}}); nid += 1
             elif t in (11, 12):   # a burst: several publishes decoded from ONE read (the dispatcher re-checks readiness
                                   # before the calls it spawned had a chance to run)
                 pk = []
@@ -698,7 +711,7 @@ def c12_configs(tier):
                    c12_decode_for(kind, mr, size), [None], 100000))
     # bursts (tokens 11, 12: three small / one big + one small publish in one read): every sequence up to 3 (quick) / 4
     for kind, mr, size in [("v3s", 1, 0), ("v3s", 2, 0), ("v3s", 0, 40), ("v3s", 2, 40), ("v5s", 2, 0), ("v5c", 2, 0), ("v3c", 2, 0)]:
-        cs.append((f"{kind}_r{mr}_s{size}_burst", PKTSEQ_CFG.format(nt=12, maxlen=3 if tier == "quick" else 4, minlen=1), "PktSeq",
+        cs.append((f"{kind}_r{mr}_s{size}_burst", PKTSEQ_CFG.format(nt=13, maxlen=3 if tier == "quick" else 4, minlen=1), "PktSeq",
                    c12_decode_for(kind, mr, size), [None], 600 if tier == "quick" else 100000))
     # re-transmitted identifiers (token 10) against the Receive Maximum: every sequence up to 4 (quick) / 5
     for kind, mr in [("v5s", 1), ("v5s", 2), ("v5c", 1)]:
@@ -1146,16 +1159,30 @@ def c19_decode_for(endpoint):
 
 def c19_client_decode(ver):
     def dec(tokens, variant):
-        a, b, c, d = tokens       # a: configured max_send 1..4, b: CONNACK Receive Maximum (0 = absent, 1..4)
-        if c != 1 or d != 1:
-            return None, None
+        # a: configured max_send 1..4, b: CONNACK Receive Maximum (1 = absent, 2..5 = 1..4),
+        # c: 1 = window probe (credit), 2 / 3 = an aliased PUBLISH at / above the Topic Alias Maximum the client
+        #    ANNOUNCED in CONNECT (2), d: CONNACK Topic Alias Maximum 1 = absent, 2 = 5, 3 = 1 (the server's own
+        #    limit for what the client may send: it must not replace the client's)
+        a, b, c, d = tokens
         cfg = dict(role="client", ver=ver, max_send=a)
         p = {"t": "connack", "rc": 0}
         if ver == 5 and b > 1:
             p["rm"] = b - 1
         elif ver == 3 and b > 1:
             return None, None
-        return cfg, [{"c": "in", "p": p}, {"c": "idle"}, {"c": "drain"}]
+        if c == 1:
+            if d != 1:
+                return None, None
+            return cfg, [{"c": "in", "p": p}, {"c": "idle"}, {"c": "drain"}]
+        if ver != 5 or a != 2 or b != 1:
+            return None, None
+        cfg.update(client_topic_alias_max=2, gate_pub=0, max_receive=16)
+        if d > 1:
+            p["tam"] = 5 if d == 2 else 1
+        probe, alias = ("alias_at", 2) if c == 2 else ("alias_over", 3)
+        return cfg, [{"c": "in", "p": p}, {"c": "mark", "k": probe},
+                     {"c": "in", "p": {"t": "publish", "ver": 5, "q": 1, "id": 77, "topic": "t", "alias": alias, "plen": 1}},
+                     {"c": "drain"}]
     return dec
 
 
@@ -1163,7 +1190,7 @@ def c19_configs(tier):
     cs = []
     nf = len(c19_firsts())
     for ver in (3, 5):
-        cs.append((f"client{ver}", PROD4_CFG.format(d1=4, d2=5, d3=1, d4=1), "Prod4", c19_client_decode(ver), [None]))
+        cs.append((f"client{ver}", PROD4_CFG.format(d1=4, d2=5, d3=3, d4=3), "Prod4", c19_client_decode(ver), [None]))
     for ep in (3, 5, "both"):
         cs.append((f"ep{ep}", PROD4_CFG.format(d1=nf, d2=len(C19_CUTS), d3=len(C19_OUTCOMES), d4=len(C19_LIMITS)),
                    "Prod4", c19_decode_for(ep), [None]))
